@@ -27,7 +27,8 @@ THEOREMS = ['C06_gaussian_error', 'C06_multiplicative_error', 'C06_lognormal_err
             'C06_cmg_code_is_two_variates', 'C06_cmg_code_refuted', 'C06_gaussian_population',
             'C06_lognormal_population', 'C06_noncentred', 'C06_noncentred_gaussian_psi',
             'C06_noncentred_lognormal_psi', 'C06_truncated_cdf_zero', 'C06_truncated_population',
-            'C06_lognormal_raw_moment', 'C06_lognormal_mean', 'C06_lognormal_std', 'C06_truncated_mean']
+            'C06_lognormal_raw_moment', 'C06_lognormal_mean', 'C06_lognormal_std', 'C06_truncated_mean',
+            'C06_truncated_second_moment', 'C06_truncated_std']
 HEADER = '''From Coq Require Import Reals Lra List.
 From Coquelicot Require Import Coquelicot.
 From Interval Require Import Tactic.
